@@ -3,9 +3,10 @@
 Memory safety / absence of UB of the C execution is not provable in this technique; see
 notes/C07.md.  Proved (TsVerif/C07/Props.lean): the bounds logic of array.h, of
 stack_node_add_link and of the inline subtree representation; ownership logic: TsVerif/C08.
-Tie: generated ts_subtree_can_inline / MAX_LINK_COUNT (translator), syntactic checks of
-subtree.h bit-field widths and of stack.c, correspondence of the array model and of the inline
-decision with the real code through the unity build.  Judge on real executions: allocator balance
+Tie: generated ts_subtree_can_inline / MAX_LINK_COUNT (translator); bit-field widths, link-array
+slots and inline conditions MEASURED on the real headers through the unity build (`bits`);
+correspondence of the array / pool / link / range-cursor models with the real static functions
+through the unity build (range cursors under a guard-page allocator).  Judge on real executions: allocator balance
 = 0 after every adversarial history; inline nodes of real trees fit; flags that only an external
 scanner can set are clear (allocations are poisoned, so an uninitialised flag is visible).
 Thorough tier only, as a SEARCH aid: ASan+UBSan unity build running adversarial API use."""
@@ -57,6 +58,28 @@ def sanitizer_search(ctx, langdirs):
                 ctx.violation("judge", "sanitizer report (search aid) in the unity build for %s, `fuzz %d 1500`: %s" % (lang, seed, out[-600:]),
                               {"case": "asan-%s-%d" % (lang, seed), "spec": "fuzz %s %d 1500" % (lang, seed), "report": out[-3000:]},
                               fingerprint={"clause": "sanitizer", "lang": lang})
+    # the deterministic range-cursor inputs of the corpus (cr / lx protocols) under ASan: the guard
+    # allocator of the unity driver is compiled out there, the sanitizer itself reports the access
+    exe = next((os.path.join(ctx.workdir, "cunit_asan_" + l) for l in sorted(langdirs) if os.path.exists(os.path.join(ctx.workdir, "cunit_asan_" + l))), None)
+    corpus = os.path.join(os.path.dirname(os.path.dirname(os.path.abspath(__file__))), "corpus", "c07.txt")
+    det = 0
+    if exe and os.path.exists(corpus):
+        for line in open(corpus):
+            w = line.split()
+            if not w or w[0] not in ("crx", "lxx"):
+                continue
+            proto = "cr" if w[0] == "crx" else "lx"
+            rc, out = sh([exe], input_text="%s %s\n" % (proto, " ".join(w[1:])), env={"ASAN_OPTIONS": "detect_leaks=1:abort_on_error=0", "UBSAN_OPTIONS": "print_stacktrace=1"}, timeout=300)
+            runs += 1
+            det += 1
+            if rc != 0 or "ERROR: AddressSanitizer" in out or "runtime error:" in out:
+                reports += 1
+                m = re.search(r"#0 0x[0-9a-f]+ in (\w+)", out)
+                kind = re.search(r"AddressSanitizer: ([\w-]+)", out)
+                ctx.violation("judge", "sanitizer report (search aid) in the unity build, `%s`: %s" % (line.strip(), out[-700:]),
+                              {"case": "asan-" + line.strip(), "spec": line.strip(), "report": out[-3000:]},
+                              fingerprint={"clause": "out-of-bounds-read", "kind": proto, "site": m.group(1) if m else "?",
+                                           "access": "oob" if (kind and "overflow" in kind.group(1)) else (kind.group(1) if kind else "?"), "via": "asan"})
     ctx.coverage["sanitizer_search"] = {"role": "search aid only, not part of the claim", "runs": runs, "reports": reports}
 
 
@@ -163,6 +186,11 @@ def run(ctx):
             judge_bad += 1
             parts = kv["judge"].split(":")
             fp = {"clause": parts[1] if len(parts) > 1 else kv["judge"], "kind": kv["kind"]}
+            if fp["clause"] == "out-of-bounds-read":
+                # site = the function whose read is out of bounds; access = oob | uaf (guard page of a live / freed block)
+                fp["site"] = parts[2] if len(parts) > 2 else "?"
+                if kv["kind"] == "cr":
+                    fp["access"] = parts[3] if len(parts) > 3 else "?"
             if fp["clause"] == "uninitialised-flag":
                 fp["field"] = parts[2] if len(parts) > 2 else "?"
                 for p in parts:
